@@ -59,7 +59,9 @@ func chanFromField(v ssa.Value, typ, field string) bool {
 func runC09(c *Ctx) {
 	// ---- R1 settle once
 	c.rule("C09-R1", "LCK+ORD on interpreter.Future: state/value/err/resolved only under Future.mu (writes exclusive); every settling write and every close(done) is unreachable once the `resolved == false` edge is cut (dominated by the already-settled test); resolved=true is stored before close(done); at most one close(done) per path; in Await* every read of state/value/err follows the receive from done (select case index of done); close(cancel) only under the select-default idiom")
-	g := func(f string) guard { return guard{typ: interpPkg + ".Future", field: f, class: interpPkg + ".Future.mu"} }
+	g := func(f string) guard {
+		return guard{typ: interpPkg + ".Future", field: f, class: interpPkg + ".Future.mu"}
+	}
 	e := newLck(c, &lckConfig{rule: "C09-R1", pkgs: []string{interpPkg}, guards: []guard{g("state"), g("value"), g("err"), g("resolved")}})
 	e.run()
 	c.floor("C09-R1", 15)
